@@ -46,6 +46,7 @@ class Ctx:
         self.notes = []
         self.coverage = {}
         self.assumptions = []
+        self.only_cfg = None
 
     def note(self, s):
         self.notes.append(s)
@@ -109,6 +110,7 @@ def main(argv):
     ap = argparse.ArgumentParser(prog='check')
     sub = ap.add_subparsers(dest='cmd')
     sub.add_parser('setup')
+    sub.add_parser('selftest')
     r = sub.add_parser('run')
     r.add_argument('prop')
     r.add_argument('--tier', default=os.environ.get('VERIF_TIER', 'quick'))
@@ -117,6 +119,9 @@ def main(argv):
     args = ap.parse_args(argv)
     if args.cmd == 'setup':
         return setup()
+    if args.cmd == 'selftest':
+        import selftest
+        return selftest.main()
     if args.cmd == 'replay':
         import replay
         return replay.replay(args.file)
